@@ -75,7 +75,7 @@ pub fn systematic(_prop: &str, _tier: Tier, _seed: u64) -> Vec<Case> {
     Vec::new()
 }
 
-fn finish_case(g: Gen, profile: &'static str) -> Case {
+pub fn finish_case(g: Gen, profile: &'static str) -> Case {
     let (scenario, world) = g.finish();
     let gen_hash = Some(world.history_hash());
     drop(world);
@@ -148,21 +148,14 @@ pub fn generate(prop: &str, _tier: Tier, rng: &mut Rng, _idx: u64) -> Case {
             g.drain();
             finish_case(g, "inbound")
         }
-        "C13" => {
-            let cfg = GenCfg::conformant(rng);
-            let mut g = Gen::new(cfg, rng);
-            g.preamble();
-            for _ in 0..g.cfg.steps {
-                g.action();
-            }
-            g.flush();
-            finish_case(g, "conformant-ops(no cause)")
-        }
+        "C13" => crate::profiles::termination(rng),
+        "C14" => crate::profiles::teardown(rng),
+        "C15" => crate::profiles::cancel(rng),
         other => panic!("no generator for property {other}"),
     }
 }
 
-fn probe_start(sc: &Scenario) -> Option<usize> {
+pub fn probe_start(sc: &Scenario) -> Option<usize> {
     for s in &sc.steps {
         if let Step::Op { id, spec: OpSpec::Publish(p), .. } = s {
             if p.payload.as_deref() == Some(b"probe".as_slice()) {
@@ -299,9 +292,49 @@ pub fn judge(prop: &str, sc: &Scenario, _aux: Option<&Scenario>) -> Judged {
             }
         }
         "C13" => {
-            viols.extend(oracle::c13_no_cause(&a));
-            if a.ops.values().any(|o| o.first_poll.is_some() && o.outcome().is_none()) {
-                j.nontrivial.push(fnv_of(&(a.ops.len(), j.interleaving)));
+            viols.extend(oracle::c13(&a, sc));
+            for (c, conn) in a.conns.iter().enumerate() {
+                let cs = oracle::causes(&a, sc, c);
+                let outstanding = a.ops.values().filter(|o| o.first_poll.is_some() && o.ret_seq().map(|r| conn.run_returned.as_ref().map(|x| r > x.0).unwrap_or(true)).unwrap_or(true)).count();
+                let streams = a.streams.values().filter(|s| s.opened.is_some()).count();
+                let connect_kind = conn.connect_returned.as_ref().map(|x| match &x.1 {
+                    ConnectOutcome::Connack(_) => 0u8,
+                    ConnectOutcome::Auth(_) => 1,
+                    ConnectOutcome::Err(e) => 2 + (e.variant.len() as u8),
+                });
+                if !cs.is_empty() && (outstanding > 0 || streams > 0) {
+                    let names: Vec<String> = cs.iter().map(|x| format!("{:?}", std::mem::discriminant(x))).collect();
+                    let reason = a.inbound.iter().rev().find_map(|i| match &i.p.pkt {
+                        Some(Packet::Disconnect(p)) => Some(p.reason),
+                        _ => None,
+                    });
+                    j.nontrivial.push(fnv_of(&(names, reason, outstanding.min(5), streams.min(3))));
+                } else if connect_kind.map(|k| k != 0).unwrap_or(false) {
+                    j.nontrivial.push(fnv_of(&(connect_kind, conn.authorize_returned.len(), conn.consumed)));
+                }
+            }
+        }
+        "C14" => {
+            viols.extend(oracle::c14(&a, sc));
+            if let Some(gone) = a.ctx_gone {
+                let phases: Vec<&str> = a.ops.values().filter(|o| o.ret_seq().map(|r| r > gone).unwrap_or(true)).map(|o| o.spec.kind_name()).collect();
+                let buffered = a.streams.values().filter(|s| s.items.iter().any(|i| i.0 > gone)).count();
+                if !phases.is_empty() || !a.streams.is_empty() {
+                    j.nontrivial.push(fnv_of(&(phases, buffered, a.wire.len(), a.inbound.len())));
+                }
+            }
+        }
+        "C15" => {
+            viols.extend(oracle::c15(&a, probe_start(sc)));
+            let cancelled: Vec<(&str, usize)> = a
+                .ops
+                .values()
+                .filter(|o| o.cancelled.is_some())
+                .map(|o| (o.spec.kind_name(), a.acks_for(o.idx).iter().filter(|i| i.avail_seq.map(|s| s > o.cancelled.unwrap()).unwrap_or(false)).count()))
+                .collect();
+            let dropped = a.streams.values().filter(|s| s.dropped.is_some()).count();
+            if cancelled.iter().any(|c| c.1 > 0) || dropped > 0 {
+                j.nontrivial.push(fnv_of(&(cancelled, dropped, a.ops.len())));
             }
         }
         other => panic!("no oracle for property {other}"),
